@@ -614,8 +614,8 @@ func runCase(run *vf.Run, raw json.RawMessage, dir string) *vf.Result {
 	}
 	// one compute-bound goroutine per worker process: keep the collector from
 	// fanning out over all cores of a busy machine
-	runtime.GOMAXPROCS(2)
-	debug.SetGCPercent(1000)
+	runtime.GOMAXPROCS(1)
+	debug.SetGCPercent(200)
 	e := newEvaluator(res)
 	switch s.Kind {
 	case "selftest":
